@@ -218,7 +218,8 @@ def _task_streams(task):
         # groups of different sizes one after the other in ONE generator (a long group, then a short one, and the other way round; two APIDs):
         # each combined packet is its own segments and nothing else
         long_g = [mk(b"\x81\x82\x83", apid=4, seqflags=1, seqcount=100), mk(b"\x84\x85\x86\x87", apid=4, seqflags=0, seqcount=101), mk(b"\x88\x89", apid=4, seqflags=2, seqcount=102)]
-        short_g = [mk(b"\x91", apid=4, seqflags=1, seqcount=200), mk(b"\x92", apid=4, seqflags=2, seqcount=201)]
+        # (only the FIRST segment of the short group says it has a secondary header, and its last one is a type-1 packet: the group is its APID's)
+        short_g = [mk(b"\x91", apid=4, seqflags=1, seqcount=200, shflag=1), mk(b"\x92", apid=4, seqflags=2, seqcount=201, type_=1)]
         other_g = [mk(b"\xa1", apid=6, seqflags=1, seqcount=300), mk(b"\xa2", apid=6, seqflags=2, seqcount=301)]
         for order in itertools.permutations((long_g, short_g, other_g)):
             for reps in (1, 2):
